@@ -156,8 +156,15 @@ Proof.
       destruct ss2 as [|b2 [|d2 [|? ?]]]; simpl in Hfl2; try discriminate.
       injection Hfl2 as Hflb2 Hfld2. simpl in Hid2. injection Hid2 as Hib2 Hid2.
       inversion Hok2 as [|? ? Hokb2 Hok2']; subst. inversion Hok2' as [|? ? Hokd2 _]; subst.
-      destruct (IH b2 d2 ob) as [r [Hr [Hs Hx]]]; try congruence.
-      { rewrite msize2 in *. lia. }
+      destruct (IH b2 d2 ob) as [r [Hr [Hs Hx]]].
+      { rewrite !msize2 in Hm2. rewrite msize2. lia. }
+      { exact Hokb2. }
+      { exact Hokd2. }
+      { congruence. }
+      { congruence. }
+      { rewrite Hflb2. exact Hsb. }
+      { rewrite Hfld2. exact Hsd. }
+      { exact Hacc. }
       { rewrite Hflb2. exact Hlt. }
       exists r. split; [exact Hr|]. split; [exact Hs|].
       intros x. rewrite (Hx x), Hflb2, Hfld2. reflexivity.
@@ -172,12 +179,16 @@ Proof.
   intros base sub Hcb Hcs Hsb Hss. unfold fp_diff_c.
   assert (Hc : Forall (fun cs => stream_clean cs = true) [base; sub]).
   { constructor; [exact Hcb|constructor; [exact Hcs|constructor]]. }
-  destruct (mk_streams_props [base; sub] 0 Hc) as [Hok [Hfl [Hm _]]].
-  cbn [mk_streams] in *. simpl in Hfl. injection Hfl as Hflb Hfls.
-  inversion Hok as [|? ? Hokb Hok']; subst. inversion Hok' as [|? ? Hoks _]; subst.
-  destruct (diff_loop_correct (streams_size [base; sub]) (mk_stream 0 base) (mk_stream 1 sub) ([], [])) as [r [Hr [Hsr Hx]]];
-    try assumption; try reflexivity.
+  destruct (mk_streams_props [base; sub] 0 Hc) as [_ [_ [Hm _]]].
+  destruct (mk_stream_ok 0 base Hcb) as [Hokb Hflb].
+  destruct (mk_stream_ok 1 sub Hcs) as [Hoks Hfls].
+  cbn [mk_streams] in *.
+  destruct (diff_loop_correct (streams_size [base; sub]) (mk_stream 0 base) (mk_stream 1 sub) ([], [])) as [r [Hr [Hsr Hx]]].
   - lia.
+  - exact Hokb.
+  - exact Hoks.
+  - reflexivity.
+  - reflexivity.
   - rewrite Hflb. apply ssortedb_iff. exact Hsb.
   - rewrite Hfls. apply ssortedb_iff. exact Hss.
   - constructor.
